@@ -29,7 +29,7 @@ class Unrelated(Exception):
 
 CLASSES = {1: Base, 2: Derived, 3: Unrelated, 4: ValueError,
            5: FileNotFoundError, 6: TimeoutError, 7: TypeError,
-           8: AttributeError, 10: Exception}
+           8: AttributeError, 10: Exception, 11: KeyError, 12: IndexError}
 
 
 # ------------------------------------------------------------------ values
@@ -151,6 +151,8 @@ def beh_term(b):
         return "(Ret %s)" % val_term(b[1])
     if kind == "pass":
         return "Pass"
+    if kind == "meddle":     # assigns req.uri_handler / uri_rule: a no-op
+        return "(Ret %s)" % val_term(("none",))
     if kind == "abort":
         return "(Abort %s)" % zlit(b[1])
     if kind == "abortresp":
@@ -179,6 +181,10 @@ def act(b, given=None):
     if kind == "conn":
         raise ConnectionError("conn")
     raise SystemExit(3)
+
+
+def _decoy(req):
+    return "decoy"
 
 
 class _CallableObject:
@@ -320,13 +326,28 @@ class Scenario:
                              req.uri_handler is endpoint_box[0] else
                              "other:%s" % getattr(req.uri_handler, "__name__",
                                                   None)))
+                if b == ("meddle",):
+                    # the chosen endpoint and rule are write-once on the
+                    # request: a hook that assigns them changes nothing
+                    try:
+                        req.uri_handler = _decoy
+                        req.uri_rule = "/decoy"
+                    except Exception:  # noqa
+                        pass
+                    return None
                 return act(b)
             hook.__name__ = "before%d" % i
             return hook
 
+        self.seen_after = seen_after = []
+
         def mk_after(i, b):
             def hook(req, res):
                 trace.append(["A", i, res.status_code])
+                seen_after.append("endpoint" if endpoint_box and
+                                  req.uri_handler is endpoint_box[0] else
+                                  "other:%s" % getattr(req.uri_handler,
+                                                       "__name__", None))
                 return act(b, res)
             hook.__name__ = "after%d" % i
             return hook
@@ -536,7 +557,7 @@ def rand_beh(rng, hook=None):
     if roll < 0.82:
         return ("abortresp", rng.choice(RESP_POOL))
     if roll < 0.94:
-        return ("throw", rng.choice([1, 2, 3, 3, 5, 6, 7, 8]))
+        return ("throw", rng.choice([1, 2, 3, 3, 5, 6, 7, 8, 11, 12]))
     return rng.choice([("conn",), ("exit",)])
 
 
